@@ -1,5 +1,5 @@
 import Pcore.Props.C13
-open Pcore.LoaderConc Pcore.Lockset
+open Pcore.LoaderConc Pcore.Lockset Pcore.LazyCache
 #print axioms C13_writeonce
 #print axioms C13_writeonce_reach
 #print axioms C13_agree
@@ -9,6 +9,10 @@ open Pcore.LoaderConc Pcore.Lockset
 #print axioms C13_load_answer
 #print axioms C13_full_fails
 #print axioms C13_miss_window_crash_before_fix
+#print axioms C13_cfg_of_table
+#print axioms C13_lazy_caches
+#print axioms C13_publish_order_fails
+#print axioms C13_cache_half_built
 #print axioms C13_lockset_norace
 #print axioms C13_lockset_ok
 #print axioms C13_impl_norace
